@@ -153,6 +153,25 @@ def join_timeout(run):
     return [ast.unparse(s) for s in _body(_func(run, "Runner", "_thread_join_timeout"))]
 
 
+def update_config_table(prog):
+    """Program.update_config as (test, assignment) pairs in statement order:
+    ("<assign>", stmt) for plain assignments, ("<call>", stmt) for bare calls,
+    (test, body) for an `if` without else whose body is simple statements."""
+    fn = _func(prog, "Program", "update_config")
+    out = []
+    for st in _body(fn):
+        if isinstance(st, ast.Assign):
+            out.append(("<assign>", ast.unparse(st)))
+        elif isinstance(st, ast.Expr) and isinstance(st.value, ast.Call):
+            out.append(("<call>", ast.unparse(st)))
+        elif isinstance(st, ast.If) and not st.orelse and \
+                all(isinstance(b, (ast.Assign, ast.Expr)) for b in st.body):
+            out.append((ast.unparse(st.test), "; ".join(ast.unparse(b) for b in st.body)))
+        else:
+            raise Fallback("update_config: unexpected statement " + ast.unparse(st)[:60])
+    return out
+
+
 def _opt(f, printer, *a):
     try:
         return "(Some %s)" % printer(f(*a)), None
@@ -211,6 +230,14 @@ def regenerate(repo):
             term, why = _opt(f, pr, tree)
         status[name] = "ok" if why is None else "fallback(%s)" % why
         lines.append("Definition %s : %s := %s." % (name, ty, term))
+    # invoke/program.py (parsed on its own so that a problem there cannot affect the tables above)
+    try:
+        prog = parse("invoke/program.py")
+        term, why = _opt(update_config_table, _pairs, prog)
+    except Exception as e:
+        term, why = "None", "source does not parse: %s" % e
+    status["update_config_src"] = "ok" if why is None else "fallback(%s)" % why
+    lines.append("Definition update_config_src : option (list (string * string)) := %s." % term)
     txt = "\n".join(lines) + "\n"
     os.makedirs(os.path.dirname(OUT), exist_ok=True)
     old = open(OUT).read() if os.path.exists(OUT) else None
